@@ -1,3 +1,53 @@
-"""placeholder for whatshap/cli/genotype.py contracts (determine_genotype)"""
+"""Contracts for whatshap/cli/genotype.py (C08): determine_genotype -- GT is the unique maximum of the genotype likelihoods if that maximum exceeds the
+threshold probability, and "unknown" otherwise.
+
+Model: the likelihoods object is indexed by Genotype objects obtained from int_to_diploid_biallelic_gt(i); that function is taken as the identity on the
+index (0 = 0/0, 1 = 0/1, 2 = 1/1, -1 = the empty "unknown" genotype), so likelihoods is a sequence of three reals and the result is a genotype index."""
+import z3
 from vcgen.api import *  # noqa
+
 R = Registry("whatshap/cli/genotype.py")
+
+
+def model_int_to_gt(eng, st, node, args, kwargs):
+    return to_z3(args[0])
+
+
+R.external_models["int_to_diploid_biallelic_gt"] = model_int_to_gt
+_BEST = "(0 <= {g} and {g} < 3 and likelihoods[{g}] > threshold_prob and forall(h, implies(0 <= h and h < 3 and h != {g}, likelihoods[{g}] > likelihoods[h])))"
+R.contract(
+    "determine_genotype", params={"likelihoods": LIST(REAL), "threshold_prob": REAL}, returns=INT,
+    requires=[("three-genotypes", "len(likelihoods) == 3")],
+    ensures=[("a-unique-maximum-above-the-threshold-is-reported", "forall(g, implies(" + _BEST.format(g="g") + ", result == g))"),
+             ("anything-else-is-unknown", "result == -1 or " + _BEST.format(g="result"))],
+    locals={"to_sort": LIST(TUPLE(REAL, INT))},
+    props=["C08"])
+
+
+def canary():
+    import copy
+    c = copy.copy(R.contracts["determine_genotype"])
+    c.ensures = [("wrong", "result != -1")]      # "a genotype is always called"
+    return c
+
+
+R.canaries.append(("genotype.py:canary#always-calls-a-genotype", canary))
+
+
+def CROSSCHECK():
+    from vcgen.crosscheck import Case
+    from fractions import Fraction
+
+    def gen(rng):
+        vals = [Fraction(rng.randint(0, 8), 8) for _ in range(3)]
+        return dict(likelihoods=vals, threshold_prob=Fraction(rng.randint(0, 8), 8))
+
+    def real(inp):
+        from whatshap.cli.genotype import determine_genotype
+        from whatshap.core import PhredGenotypeLikelihoods
+        try:
+            g = determine_genotype(PhredGenotypeLikelihoods([float(x) for x in inp["likelihoods"]]), float(inp["threshold_prob"]))
+            return ("ok", -1 if g.is_none() else g.get_index(), {})
+        except Exception as e:      # noqa: BLE001
+            return ("raise", type(e).__name__)
+    return [Case("determine_genotype", gen, real, n=200)]
